@@ -93,6 +93,7 @@ def expand_source_SCCs(
         # This makes the root artificially "expanded". Also, there
         # can be no attractors here because we are just fixing the source nodes.
         sd.node_data(root)["expanded"] = True
+        sd.node_data(root)["attractor_candidates"] = []
         sd.node_data(root)["attractor_seeds"] = []
         sd.node_data(root)["attractor_sets"] = []
         current_level = next_level
@@ -183,6 +184,18 @@ def expand_source_SCCs(
     return True
 
 
+def _mark_expanded(sd: SuccessionDiagram, node_id: int):
+    """
+    Mark the node as expanded. Since the node is about to receive new successors,
+    any attractor data computed for it so far is no longer valid and is erased.
+    """
+    node = sd.node_data(node_id)
+    node["attractor_seeds"] = None
+    node["attractor_candidates"] = None
+    node["attractor_sets"] = None
+    node["expanded"] = True
+
+
 def attach_scc_subdiagram(
     sd: SuccessionDiagram, scc_sd: SuccessionDiagram, attach_at: int, check_maa: bool
 ) -> list[int]:
@@ -235,7 +248,7 @@ def attach_scc_subdiagram(
         else:
             # This node can be marked as expanded, because we know its successors.
             # We just need to add them in the for loop below.
-            sd.node_data(main_node_id)["expanded"] = True
+            _mark_expanded(sd, main_node_id)
 
         if check_maa:
             if len(scc_sd.node_attractor_candidates(scc_node_id, compute=True)) == 0:
@@ -259,7 +272,7 @@ def attach_scc_subdiagram(
             sd._ensure_edge(main_node_id, main_succ_id, inner_stable_motif)  # type: ignore
 
     # This makes the `attach_at` node expanded. We will not be adding new nodes to it later.
-    sd.node_data(attach_at)["expanded"] = True
+    _mark_expanded(sd, attach_at)
     # Finally, if we are checking for MAAs, we can do that for the root too:
     if check_maa:
         if len(scc_sd.node_attractor_candidates(scc_sd.root(), compute=True)) == 0:
